@@ -11,8 +11,8 @@ import c16
 import drive_store_typed as DT
 
 COQ_FILES = ("L4_Eval/Store.v", "L5_Stores/RunStore.v", "L5_Stores/PathMap.v", "L5_Stores/PathMapProofs.v", "L6_Conc/LocalProgs.v", "L6_Conc/SeqRefine.v", "Properties/C08.v", "Properties/C08b.v", "Base/PyRt.v", "Extracted/GenPath.v", "L5_Stores/GenPathProofs.v", "Properties/C08g.v")
-PROPERTY_FILES = ("C08", "C08b", "C08g")
-EXTRACTED = ("ConstStore", "GenPath")
+PROPERTY_FILES = ("C08", "C08b", "C08g", "C08m")
+EXTRACTED = ("ConstStore", "GenPath", "GenMemStore")
 ALLOWED_AXIOMS = ()
 
 PRELUDE = c12.PRELUDE
